@@ -395,11 +395,12 @@ Fixpoint evict_pods (c : cfg) (prod : bool) (r : row) (ps : list pod) (st : usta
 
 (* podFitsAnyNodeWithThreshold: the first target (in the given order) that stays within its
    high threshold with the pod's usage added keeps that usage as a reservation *)
+Definition pfit (c : cfg) (p : pod) : vec := proj (active c) [pcpu p; pmem p; 0].
 Fixpoint fit_any (c : cfg) (prod : bool) (p : pod) (targets : list row) (um : umap) : bool * umap :=
   match targets with
   | [] => (false, um)
   | t :: ts =>
-    let u' := vadd (uget (rid t) um) (proj (active c) [pcpu p; pmem p; 0]) in
+    let u' := vadd (uget (rid t) um) (pfit c p) in
     if over u' (r_high prod t) then fit_any c prod p ts um else (true, uset (rid t) u' um)
   end.
 
@@ -497,14 +498,31 @@ Definition process_pool (c : cfg) (tbl : list row) (psize : Z) (ds : dstate) : l
           let '(evs, (dn, dp)) := evict_from_sources c tbl abn' pabn' (dn, dp) in
           (evs, (mark_nodes_normal abn' dn, mark_nodes_normal pabn' dp)).
 
+(* ---- repaired variant (finding C18-anomaly-not-consecutive) ----
+   forgetNonSourceNodes: before anything else the detectors of the pool's nodes that are not
+   sources in this round are dropped (one pool: every detector belongs to a pool node), so only
+   uninterrupted runs of abnormal rounds are counted.
+   [reset_on_normal] says which variant /repo contains; flip it to [true] once the fix is in. *)
+Definition reset_on_normal : bool := true.
+
+Definition forget (src : list row) (m : dmap) : dmap :=
+  filter (fun kv => existsb (Z.eqb (fst kv)) (map rid src)) m.
+Definition pre_round (fx : bool) (tbl : list row) (ds : dstate) : dstate :=
+  if fx then (forget (filter (has_cls cHigh) tbl) (fst ds), forget (filter (has_cls cProdHigh) tbl) (snd ds))
+  else ds.
+
 (* one Balance call *)
-Definition balance (c : cfg) (ns : list nstat) (rs : list nround) (ds : dstate) : list ev * dstate :=
-  process_pool c (table c ns rs) (pool_size c ns rs) ds.
+Definition balance_gen (fx : bool) (c : cfg) (ns : list nstat) (rs : list nround) (ds : dstate)
+  : list ev * dstate :=
+  process_pool c (table c ns rs) (pool_size c ns rs) (pre_round fx (table c ns rs) ds).
 
 (* a history: successive rounds over the same plugin instance *)
-Fixpoint run (c : cfg) (ns : list nstat) (rounds : list (list nround)) (ds : dstate)
+Fixpoint run_gen (fx : bool) (c : cfg) (ns : list nstat) (rounds : list (list nround)) (ds : dstate)
   : list (list ev * dstate) :=
   match rounds with
   | [] => []
-  | rs :: t => let '(evs, ds') := balance c ns rs ds in (evs, ds') :: run c ns t ds'
+  | rs :: t => let '(evs, ds') := balance_gen fx c ns rs ds in (evs, ds') :: run_gen fx c ns t ds'
   end.
+
+Definition balance := balance_gen reset_on_normal.
+Definition run := run_gen reset_on_normal.
